@@ -434,9 +434,13 @@ func SolveLight(script, light string, timeoutS int, all bool) SolverResult {
 	var best *SolverResult
 	details := map[string]string{}
 	var fallback SolverResult
+	fullDone := 0
 	for r := range ch {
 		details[r.Solver] = fmt.Sprintf("%s %.2fs", r.Status, r.Time)
 		r := r
+		if !strings.Contains(r.Solver, " (") {
+			fullDone++
+		}
 		if r.Status == "sat" || r.Status == "unsat" {
 			if best == nil {
 				best = &r
@@ -449,6 +453,12 @@ func SolveLight(script, light string, timeoutS int, all bool) SolverResult {
 			}
 		} else if fallback.Status == "" || fallback.Status == "error" {
 			fallback = r
+		}
+		if all && best != nil && fullDone == len(solverDefs) {
+			// thorough tier: every solver has answered on the full script (or run out of time) and there is an
+			// answer; the weakened variants still running cannot change it
+			cancel()
+			break
 		}
 	}
 	if best != nil {
